@@ -422,7 +422,10 @@ impl Column {
                 let start = xs.get_start();
                 let len = xs.get_len() as usize;
                 let step = xs.get_step();
-                let decoded = (0..len).map(|i| start + i as i64 * step).collect();
+                // (`i * step` may exceed i64 although every element fits)
+                let decoded = (0..len)
+                    .map(|i| (start as i128 + i as i128 * step as i128) as i64)
+                    .collect();
                 Column::Int(decoded)
             }
         };
